@@ -194,7 +194,7 @@ func TestVerifC06Release(t *testing.T) {
 	vc := verifStart(t, "C06", "release")
 	defer vc.Finish()
 	verifE1SelfCheck(t)
-	total := vc.N(500, 15000)
+	total := vc.N(500, 5000)
 	for i := 0; i < total; i++ {
 		if !vc.Mine(i) {
 			continue
